@@ -88,6 +88,13 @@ type options struct {
 	Routes                 []route  `json:"routes"`
 	SourceLinkLayerAddress string   `json:"source_link_layer_address"`
 	CaptivePortal          string   `json:"captive_portal"`
+	PREF64                 []pref64 `json:"pref64"`
+}
+
+// A pref64 represents an NDP PREF64 option.
+type pref64 struct {
+	Prefix          string `json:"prefix"`
+	LifetimeSeconds int    `json:"lifetime_seconds"`
 }
 
 // A dnssl represents an NDP DNS Search List option.
@@ -151,6 +158,11 @@ func packOptions(opts []ndp.Option) options {
 			out.RDNSS = append(out.RDNSS, rdnss{
 				LifetimeSeconds: int(o.Lifetime.Seconds()),
 				Servers:         servers,
+			})
+		case *ndp.PREF64:
+			out.PREF64 = append(out.PREF64, pref64{
+				Prefix:          o.Prefix.String(),
+				LifetimeSeconds: int(o.Lifetime.Seconds()),
 			})
 		case *ndp.RouteInformation:
 			out.Routes = append(out.Routes, route{
